@@ -257,8 +257,10 @@ ASSUMPTIONS = {
             "half of the programs place writes freely, including writes through an array while an unread selection of "
             "it is alive (possible since the stale-alias finding R01 was repaired)",
             "numpy is real and trusted; only raised/returned is compared for failing steps, not exception types",
-            "float elements are multiples of 0.25 in a small range, so that every sum is exact whatever the "
-            "association order or memory alignment"],
+            "float elements of constructed arrays are multiples of 0.25 in a small range (plus nan / inf / -0.0), so that "
+            "sums are exact whatever the association order; only column-vector operands carry generic reals, and "
+            "results computed from them are compared bit for bit between schedules (same code, same buffers, same "
+            "order of operations - no divergence seen in any soak)"],
     "C10": ["sampling, not enumeration", "observers are the read-only operations listed in the property; their "
             "results are dropped", "half of the programs place writes freely, including writes through an array while an "
             "unread selection of it is alive; nothing is attributed to a known finding any more (R01 is repaired)",
